@@ -382,6 +382,7 @@ class Core(composites.Composite):
                 self.parent.excore.sfp.add(a1)
             else:
                 runLog.info("No Spent Fuel Pool is found, can't track assemblies.")
+                self._removeListFromAuxiliaries(a1)
         else:
             self._removeListFromAuxiliaries(a1)
 
